@@ -44,10 +44,10 @@ def evaluate(g, P, A, label):
 # ------------------------------------------------------------------------------------------------ permutations
 @st.composite
 def perm_case(draw):
-    gs = draw(objs.gemini_spec())
+    gs = draw(objs.gemini_spec(foreign=True))
     big = draw(st.integers(0, 7)) == 0
     nmax = (24 if big else 10) if gs["base"] == "wasserstein" else (200 if big else 14)
-    p = draw(gens.p_spec(n_min=1, n_max=nmax, k_max=32 if big else 6, scales=[0.05, 0.5, 2.0, 8.0, 20.0]))
+    p = draw(gens.p_spec(pkinds=gens.STRUCTURED_P, n_min=1, n_max=nmax, k_max=32 if big else 6, scales=[0.05, 0.5, 2.0, 8.0, 20.0]))
     return {"g": gs, "p": p, "x": draw(gens.x_spec()), "rseed": draw(gens.seeds)}
 
 
@@ -69,7 +69,9 @@ def oracle_perm(case):
         raise Violation(f"{label}: score {v1!r} becomes {v2!r} after permuting samples {sp.tolist()} and clusters "
                         f"{cp.tolist()} (tolerance {2 * tol:.3g})")
     compared = False
-    generic = case["x"]["xkind"] != "grid" and case["p"]["scale"] <= 2.0 and (gs.get("a") is None or gs["a"]["form"] != "psd" or n <= 2)
+    structured = bool(case["p"].get("pkind"))
+    generic = case["x"]["xkind"] not in ("grid", "line") and case["p"]["scale"] <= 2.0 and not structured and \
+        (gs.get("a") is None or gs["a"]["form"] != "psd" or n <= 2)
     piecewise = gs["base"] in ("tv", "wasserstein")
     cond = R.mmd_condition(P, A, gs["ovo"]) if gs["base"] == "mmd" else 0.0
     if (generic or not piecewise) and cond <= 1e-3 and P.min() > 1e-12 and P.max() < 1 - 1e-12:
@@ -81,6 +83,19 @@ def oracle_perm(case):
             raise Violation(f"{label}: gradient is not permuted with the samples/clusters: max deviation "
                             f"{np.max(np.abs(t1 - t2))!r} (tolerance {gtol:.3g}), n={n}, K={K}")
         compared = True
+    elif gs["base"] == "tv" and structured and P.min() > 1e-12 and P.max() < 1 - 1e-12:
+        # exact ties (a kink of the total variation): reordering the samples may change a sum by one ulp and with it the side
+        # of the kink, but relabelling the clusters alone performs the same arithmetic on the same numbers - the (sub)gradient
+        # chosen at the tie must follow the clusters
+        v3, g3 = evaluate(g, np.ascontiguousarray(P[:, cp]), A, label)
+        t1 = tangent(g1)[:, cp]
+        t3 = tangent(g3)
+        gtol = 1e-7 * max(S, float(np.max(np.abs(t1))), abs(v1))
+        if np.max(np.abs(t1 - t3)) > gtol:
+            raise Violation(f"{label}: gradient is not permuted with the clusters {cp.tolist()} (samples left in place) at "
+                            f"predictions with exact ties: max deviation {np.max(np.abs(t1 - t3))!r} (tolerance {gtol:.3g}), "
+                            f"P={P.tolist() if P.size <= 24 else '...'}")
+        compared = True
     nonid = (not np.array_equal(sp, np.arange(n))) and (not np.array_equal(cp, np.arange(K)))
     return {"nontrivial": bool(nonid and n >= 2 and v1 > floor_of(gs["base"]) + 1e-9 * S),
             "classes": [objs.gs_class(gs) + (":grad" if compared else ":value")], "counts": {"gradient_compared": int(compared)}}
@@ -89,9 +104,9 @@ def oracle_perm(case):
 # ------------------------------------------------------------------------------------------------ empty cluster
 @st.composite
 def empty_case(draw):
-    gs = draw(objs.gemini_spec())
+    gs = draw(objs.gemini_spec(foreign=True))
     nmax = 9 if gs["base"] == "wasserstein" else 12
-    return {"g": gs, "p": draw(gens.p_spec(n_min=1, n_max=nmax, k_min=1, k_max=5, scales=[0.05, 0.5, 2.0])),
+    return {"g": gs, "p": draw(gens.p_spec(pkinds=gens.STRUCTURED_P, n_min=1, n_max=nmax, k_min=1, k_max=5, scales=[0.05, 0.5, 2.0])),
             "x": draw(gens.x_spec()), "pos": draw(st.integers(0, 5))}
 
 
@@ -130,7 +145,7 @@ def oracle_empty(case):
 # ------------------------------------------------------------------------------------------------ bounds on the closed simplex
 @st.composite
 def closed_case(draw):
-    gs = draw(objs.gemini_spec())
+    gs = draw(objs.gemini_spec(foreign=True))
     nmax = 9 if gs["base"] == "wasserstein" else 12
     n = draw(st.integers(1, nmax))
     K = draw(st.integers(2, 5))
@@ -210,22 +225,22 @@ def oracle_hard(case):
 
 @st.composite
 def huge_perm_case(draw):
-    gs = draw(objs.gemini_spec(bases=("tv", "kl", "mmd", "hellinger", "chi2"), kernel_forms=("named",)))
+    gs = draw(objs.gemini_spec(foreign=True, bases=("tv", "kl", "mmd", "hellinger", "chi2"), kernel_forms=("named",)))
     p = draw(gens.p_spec(n_min=1025, n_max=2600, k_min=2, k_max=5, scales=[0.5, 2.0, 8.0]))
     return {"g": gs, "p": p, "x": draw(gens.x_spec(d_max=2, kinds=("normal",))), "rseed": draw(gens.seeds)}
 
 
 @st.composite
 def huge_nk_perm_case(draw):
-    gs = draw(objs.gemini_spec(bases=("tv", "kl", "hellinger", "chi2", "mmd"), kernel_forms=("named",)))
+    gs = draw(objs.gemini_spec(foreign=True, bases=("tv", "kl", "hellinger", "chi2", "mmd"), kernel_forms=("named",)))
     p = draw(gens.p_spec(n_min=660, n_max=1700, k_min=26, k_max=48, scales=[0.5, 2.0, 8.0]))
     return {"g": gs, "p": p, "x": draw(gens.x_spec(d_max=2, kinds=("normal",))), "rseed": draw(gens.seeds)}
 
 
 @st.composite
 def wass_large_perm_case(draw):
-    gs = draw(objs.gemini_spec(bases=("wasserstein",), metric_forms=("named", "randdist")))
-    p = draw(gens.p_spec(n_min=40, n_max=150, k_min=2, k_max=6, scales=[0.5, 2.0, 8.0]))
+    gs = draw(objs.gemini_spec(foreign=True, bases=("wasserstein",), metric_forms=("named", "randdist", "foreign")))
+    p = draw(gens.p_spec(pkinds=gens.STRUCTURED_P, n_min=40, n_max=150, k_min=2, k_max=6, scales=[0.5, 2.0, 8.0]))
     return {"g": gs, "p": p, "x": draw(gens.x_spec(d_max=3, kinds=("normal", "grid"))), "rseed": draw(gens.seeds)}
 
 
